@@ -1,5 +1,6 @@
 // C12 -- evaluation is schedule-independent and safe to run concurrently (E3 schedule explorer).
 //   -DVMODE=0 : scheduler build (parts a, b, c)      -DVMODE=1 : free-running build for ThreadSanitizer (part d)
+//   -DVMODE=2 : free-running build with -fopenmp exercising the library's own OpenMPExecutor (part e)
 #ifndef VMODE
 #define VMODE 0
 #endif
@@ -10,6 +11,9 @@ static inline void vf_sched_point(const char *tag) { if (tag[0] == 'r' && !g_sch
 #define VF_SCHED_POINT(tag) vf_sched_point(tag)
 #endif
 #include "optkit.hpp"
+#if VMODE == 2
+#include <omp.h>
+#endif
 #include <thread>
 #include <algorithm>
 using namespace vf;
@@ -48,7 +52,7 @@ struct PartExec {
     for (int id : ids) e3::join(id);
   }
 };
-#else
+#elif VMODE == 1
 struct ThreadExec {
   const std::vector<int> *assign; int workers;
   template <class F> void operator()(int start, int end, F &&f) const {
@@ -148,7 +152,7 @@ template <int S> static void part_c(Ctx &c, long &id) {  // concurrent evaluate(
     c.st.sample(fmt("unit %s: %s: all schedules with <= %d preemptions: %ld schedules, %zu distinct traces; points at mutex lock/unlock and in every call-out to the time/spatial map", unit.c_str(), what.c_str(), bound, acc.execs, acc.traces.size()), 12);
   }
 }
-#else
+#elif VMODE == 1
 // (d) free-running pass under ThreadSanitizer: same thread bodies, no scheduler; any report aborts the process (exitcode)
 template <int S> static void part_d(Ctx &c, long &id) {
   const int reps = c.args.thorough() ? 60 : 20;
@@ -175,6 +179,39 @@ template <int S> static void part_d(Ctx &c, long &id) {
 }
 #endif
 
+#if VMODE == 2
+// (e) the library's OpenMPExecutor (compiled with -fopenmp), free-running: a monitor, not an enumeration
+template <int S> static void part_e(Ctx &c, long &id) {
+  const int reps = c.args.thorough() ? 40 : 10;
+  for (int N = 1; N <= 8; ++N) { long my = id++; if (!c.mine(my)) continue; std::string unit = fmt("e:%ld", my); if (!c.begin(unit)) continue;
+    Setup<S> s(N, 2, 0xff); Eigen::VectorXd x = s.xvec(0), g0; s.fresh(false); typename Setup<S>::WS w0; const double c0 = s.opt->evaluate(x, g0, s.tc, s.wc, s.rc, &w0, SerialExecutor());
+    for (int nt = 1; nt <= 4; ++nt) { omp_set_num_threads(nt); for (int r = 0; r < reps; ++r) { typename Setup<S>::WS w; Eigen::VectorXd g; double cp = s.opt->evaluate(x, g, s.tc, s.wc, s.rc, &w, OpenMPExecutor()); ++c.st.comparisons;
+        if (!bits_equal(cp, c0) || g.size() != g0.size() || !bits_equal(g.data(), g0.data(), g0.size())) { c.st.violate(unit, fmt("OpenMPExecutor with %d threads: %s N=%d differs from SerialExecutor (cost %.17g vs %.17g)", nt, order_name(S), N, cp, c0), {{"what", "openmp-executor"}}); r = reps; nt = 5; } } }
+    ++c.st.evaluations; ++c.st.nontrivial; c.st.seen(unit + order_name(S)); c.st.cls("(e) OpenMPExecutor vs SerialExecutor", 4 * reps); }
+  // concurrent evaluate() calls issued by the threads of an OpenMP team / by std::threads, each with OpenMPExecutor or SerialExecutor
+  for (int warm = 0; warm < 2; ++warm) for (int team = 0; team < 2; ++team) for (int ompexec = 0; ompexec < 2; ++ompexec) {
+    long my = id++; if (!c.mine(my)) continue; std::string unit = fmt("e:%ld", my); if (!c.begin(unit)) continue;
+    const int N = 4, NT = 3; Setup<S> s(N, 2, 0xff);
+    std::vector<Eigen::VectorXd> xs, gser(NT); std::vector<double> cser(NT); for (int j = 0; j < NT; ++j) xs.push_back(s.xvec(j));
+    s.fresh(false); for (int j = 0; j < NT; ++j) { typename Setup<S>::WS w; cser[j] = s.opt->evaluate(xs[j], gser[j], s.tc, s.wc, s.rc, &w); }
+    omp_set_num_threads(NT); omp_set_max_active_levels(2);
+    for (int r = 0; r < reps; ++r) {
+      s.fresh(warm); std::vector<Eigen::VectorXd> g(NT); std::vector<double> cc(NT);
+      auto body = [&](int j) { typename Setup<S>::WS w; cc[j] = ompexec ? s.opt->evaluate(xs[j], g[j], s.tc, s.wc, s.rc, &w, OpenMPExecutor()) : s.opt->evaluate(xs[j], g[j], s.tc, s.wc, s.rc, &w, SerialExecutor()); };
+      if (team) {
+#pragma omp parallel num_threads(NT)
+        { body(omp_get_thread_num()); }
+      } else { std::vector<std::thread> ts; for (int j = 0; j < NT; ++j) ts.emplace_back(body, j); for (auto &t : ts) t.join(); }
+      ++c.st.comparisons; bool bad = false;
+      for (int j = 0; j < NT; ++j) if (!bits_equal(cc[j], cser[j]) || g[j].size() != gser[j].size() || !bits_equal(g[j].data(), gser[j].data(), g[j].size())) { c.st.violate(unit, fmt("%s: %d concurrent evaluate() calls from %s with %s on a %s optimizer: caller %d got cost %.17g, serial %.17g", order_name(S), NT, team ? "an OpenMP team" : "std::threads", ompexec ? "OpenMPExecutor" : "SerialExecutor", warm ? "warm" : "cold", j, cc[j], cser[j]), {{"what", "openmp-concurrent"}}); bad = true; break; }
+      if (bad) break;
+    }
+    ++c.st.evaluations; ++c.st.nontrivial; c.st.seen(unit + order_name(S)); c.st.cls("(e) concurrent evaluate with OpenMP", reps);
+    c.st.sample(fmt("unit %s: %s, %d reps: 3 callers (%s) x evaluate() with %s on a %s optimizer vs the serial calls, bitwise", unit.c_str(), order_name(S), reps, team ? "threads of one OpenMP parallel region" : "std::threads", ompexec ? "the library's OpenMPExecutor" : "SerialExecutor", warm ? "warm" : "cold"), 4);
+  }
+}
+#endif
+
 int main(int argc, char **argv) {
   Args a = parse_args(argc, argv);
   return supervise(a, [&](Ctx &c) {
@@ -183,8 +220,10 @@ int main(int argc, char **argv) {
     part_a<2>(c, id); part_a<3>(c, id); part_a<4>(c, id);
     part_b<3>(c, id); if (c.args.thorough()) { part_b<2>(c, id); part_b<4>(c, id); }
     part_c<3>(c, id); if (c.args.thorough()) { part_c<2>(c, id); part_c<4>(c, id); }
-#else
+#elif VMODE == 1
     part_d<2>(c, id); part_d<3>(c, id); part_d<4>(c, id);
+#else
+    part_e<2>(c, id); part_e<3>(c, id); part_e<4>(c, id);
 #endif
   });
 }
